@@ -218,25 +218,28 @@ def pmap(fn_name, arglist, procs=None, chunksize=16):
     return _confirm_hangs(jobs, results)
 
 
+_CONFIRMED = 0
+
+
 def _confirm_hangs(jobs, results):
     """A watchdog hit on a loaded machine is not yet a hang: every 'hang' is re-run alone (nothing else running
     in this harness) with a 12x watchdog before it is reported.  Keeps starved runs from raising false alarms."""
-    confirmed = 0
+    global _CONFIRMED
     for i, (job, r) in enumerate(zip(jobs, results)):
         if isinstance(r, dict) and r.get("outcome") == "hang" and job[0] == "assemble":
-            if confirmed >= 3:
-                # three hangs were already confirmed in this batch: the rest are reported as they are
-                # (each confirmation costs up to 12 watchdogs; a tree that hangs broadly must not stall the check)
+            if _CONFIRMED >= 3:
+                # three hangs were already confirmed by this process: the rest are reported as they are
+                # (each confirmation costs up to 2 minutes; a tree that hangs broadly must not stall the check)
                 r["hang_not_reconfirmed"] = True
                 continue
             fn, a, k = job
             k2 = dict(k)
-            k2["watchdog"] = 12 * float(k.get("watchdog") or WATCHDOG_S)
+            k2["watchdog"] = min(120.0, 12 * float(k.get("watchdog") or WATCHDOG_S))
             r2 = _run_one((fn, a, k2))
             if isinstance(r2, dict):
                 r2["first_attempt_hit_watchdog"] = True
                 if r2.get("outcome") == "hang":
-                    confirmed += 1
+                    _CONFIRMED += 1
             results[i] = r2
     return results
 
